@@ -834,16 +834,32 @@ func c01Chain(p *core.Program, r *core.Report, e *engines) {
 
 // ---- R1.4 -----------------------------------------------------------------------------------
 
-// descendingFill: `for i := N - 1; i >= 0; i-- { … S[i] = <popped> … }`.
+// descendingFills: every loop of the handler that pops values runs once per counted value,
+// and a store of the popped value into a slice made by the handler goes to position
+// count-1-T in iteration T (T = 0, 1, …): the values were pushed in order, so the T-th popped
+// one is the (count-1-T)-th pushed. The loop's idiom (counting down from count-1, down from
+// len, up with a mirrored index, range) does not matter: header and index are read as affine
+// forms of the iteration number.
 func descendingFills(info *types.Info, e *engines, clause *ast.CaseClause) (loops int, ok bool, why string) {
 	ok = true
+	env := &eng.AffEnv{Info: info, Vars: map[types.Object]eng.Aff{}}
+	env.Sym = func(x ast.Expr) (string, bool) {
+		if sel, isSel := eng.Unparen(x).(*ast.SelectorExpr); isSel {
+			if s := info.Selections[sel]; s != nil && s.Kind() == types.FieldVal {
+				return eng.ExprStr(sel), true
+			}
+		}
+		return "", false
+	}
+	lenOf := eng.MadeLengths(info, env, clause.Body)
 	for _, st := range clause.Body {
-		fs, isFor := st.(*ast.ForStmt)
-		if !isFor {
+		switch st.(type) {
+		case *ast.ForStmt, *ast.RangeStmt:
+		default:
 			continue
 		}
 		pops := 0
-		ast.Inspect(fs.Body, func(n ast.Node) bool {
+		ast.Inspect(st, func(n ast.Node) bool {
 			if c, isC := n.(*ast.CallExpr); isC {
 				if fn := eng.CalleeOf(info, c); fn != nil && e.vm.Prims[fn] == "pop" {
 					pops++
@@ -855,54 +871,41 @@ func descendingFills(info *types.Info, e *engines, clause *ast.CaseClause) (loop
 			continue
 		}
 		loops++
-		// shape of the header
-		var iv types.Object
-		if as, isAs := fs.Init.(*ast.AssignStmt); isAs && len(as.Lhs) == 1 && len(as.Rhs) == 1 {
-			if id, isID := as.Lhs[0].(*ast.Ident); isID {
-				iv = objOf(info, id)
-			}
-			if be, isBE := eng.Unparen(as.Rhs[0]).(*ast.BinaryExpr); !isBE || be.Op != token.SUB || eng.ExprStr(be.Y) != "1" {
-				ok, why = false, "the loop does not start at count-1"
-			}
-		} else {
-			ok, why = false, "unrecognised loop initialisation"
+		cl := eng.AnalyseCountedLoop(info, env, st, lenOf)
+		if !cl.OK {
+			ok, why = false, "the popping loop is not a counted loop: "+cl.Why
+			continue
 		}
-		if c, isBE := eng.Unparen(fs.Cond).(*ast.BinaryExpr); !isBE || c.Op != token.GEQ || eng.ExprStr(c.Y) != "0" {
-			ok, why = false, "the loop does not run down to 0 inclusive"
+		// stores into an indexed collection
+		benv := &eng.AffEnv{Info: info, Vars: map[types.Object]eng.Aff{}, Sym: env.Sym}
+		if cl.Var != nil {
+			benv.Vars[cl.Var] = cl.Val
 		}
-		if pst, isInc := fs.Post.(*ast.IncDecStmt); !isInc || pst.Tok != token.DEC {
-			ok, why = false, "the loop does not count down by one"
-		}
-		// stores into an indexed collection use the loop variable as index
-		ast.Inspect(fs.Body, func(n ast.Node) bool {
+		ast.Inspect(cl.Body, func(n ast.Node) bool {
 			as, isAs := n.(*ast.AssignStmt)
 			if !isAs {
 				return true
 			}
 			for _, l := range as.Lhs {
-				if ix, isIx := l.(*ast.IndexExpr); isIx {
-					if _, isSlice := info.TypeOf(ix.X).Underlying().(*types.Slice); isSlice {
-						// the collection that receives the values is a fresh make of this handler
-						fresh := false
-						if cid, isID := eng.Unparen(ix.X).(*ast.Ident); isID {
-							for _, cst := range clause.Body {
-								if das, isAs := cst.(*ast.AssignStmt); isAs && len(das.Lhs) == 1 && len(das.Rhs) == 1 {
-									if lid, isL := das.Lhs[0].(*ast.Ident); isL && objOf(info, lid) == objOf(info, cid) {
-										if mc, isC := das.Rhs[0].(*ast.CallExpr); isC && isBuiltinCall(info, mc, "make") {
-											fresh = true
-										}
-									}
-								}
-							}
-						}
-						if !fresh {
-							ok, why = false, "the values are collected into `"+eng.ExprStr(ix.X)+"`, which is not a slice made in this handler"
-						}
-						id, isID := eng.Unparen(ix.Index).(*ast.Ident)
-						if !isID || objOf(info, id) != iv {
-							ok, why = false, "position `"+eng.ExprStr(ix.Index)+"` is filled instead of the loop index: arguments/elements arrive in another order than written"
-						}
+				ix, isIx := l.(*ast.IndexExpr)
+				if !isIx {
+					continue
+				}
+				if _, isSlice := info.TypeOf(ix.X).Underlying().(*types.Slice); !isSlice {
+					continue
+				}
+				// the collection that receives the values is a fresh make of this handler
+				if _, fresh := lenOf(ix.X); !fresh {
+					ok, why = false, "the values are collected into `"+eng.ExprStr(ix.X)+"`, which is not a slice made in this handler"
+				}
+				idx, isAff := benv.Eval(ix.Index)
+				want := cl.Trips.Add(eng.AffConst(1), -1).Add(eng.AffSym("T"), -1)
+				if !isAff || !idx.Equal(want) {
+					got := eng.ExprStr(ix.Index)
+					if isAff {
+						got = idx.String()
 					}
+					ok, why = false, "iteration T (the T-th popped value) fills position `"+got+"`, not count-1-T = "+want.String()+": arguments/elements arrive in another order than written"
 				}
 			}
 			return true
@@ -929,7 +932,7 @@ func c01Calls(p *core.Program, r *core.Report, e *engines) {
 		if loops == 0 {
 			r.Unk("R1.4", key+"/position i receives the i-th pushed value", pos, "the handler pops a counted number of values but not in a recognisable counted loop")
 		} else {
-			r.Check(ok, "R1.4", key+"/position i receives the i-th pushed value", pos, "descending loop from count-1 to 0, index = loop variable", why)
+			r.Check(ok, "R1.4", key+"/position i receives the i-th pushed value", pos, "the T-th popped value goes to position count-1-T", why)
 		}
 		if !isCall {
 			continue
